@@ -28,10 +28,10 @@ const (
 // oset is a set of origins.
 type oset struct{ p, g uint64 }
 
-func (a oset) or(b oset) oset   { return oset{a.p | b.p, a.g | b.g} }
-func (a oset) empty() bool      { return a.p == 0 && a.g == 0 }
+func (a oset) or(b oset) oset    { return oset{a.p | b.p, a.g | b.g} }
+func (a oset) empty() bool       { return a.p == 0 && a.g == 0 }
 func (a oset) minus(b oset) oset { return oset{a.p &^ b.p, a.g &^ b.g} }
-func (a oset) params() uint64   { return a.p &^ (bitSRC | bitCACHE) }
+func (a oset) params() uint64    { return a.p &^ (bitSRC | bitCACHE) }
 
 type fact struct{ D, X oset }
 
@@ -74,24 +74,24 @@ type effReport struct {
 }
 
 type Effect struct {
-	p        *Prog
-	sums     map[*ssa.Function]*summary
-	sites    map[string]*site
-	changed  bool
-	reports  map[string]*effReport
-	heap     map[string]oset // program-wide heap summary (SRC/CACHE/global origins only)
-	globalID map[*ssa.Global]int
-	globals  []*ssa.Global
-	callees  map[ssa.CallInstruction][]*ssa.Function
-	region   map[string]bool // client region element types (by type string)
-	regionC  map[string]bool // cache region element types
-	regionG  []map[string]bool // per global: types reachable from it
+	p         *Prog
+	sums      map[*ssa.Function]*summary
+	sites     map[string]*site
+	changed   bool
+	reports   map[string]*effReport
+	heap      map[string]oset // program-wide heap summary (SRC/CACHE/global origins only)
+	globalID  map[*ssa.Global]int
+	globals   []*ssa.Global
+	callees   map[ssa.CallInstruction][]*ssa.Function
+	region    map[string]bool   // client region element types (by type string)
+	regionC   map[string]bool   // cache region element types
+	regionG   []map[string]bool // per global: types reachable from it
 	gmaskMemo map[types.Type]uint64
-	kindMemo map[types.Type]int
-	passes   int
-	nCalls   int
-	srcCalls []srcCall
-	allSites []*site // every primitive write site seen (deduplicated)
+	kindMemo  map[types.Type]int
+	passes    int
+	nCalls    int
+	srcCalls  []srcCall
+	allSites  []*site // every primitive write site seen (deduplicated)
 	// per-call-site argument facts of selected callees (for the attr-mutator rule)
 	attrCalls []attrCall
 }
